@@ -182,6 +182,7 @@ func TestC20(t *testing.T) {
 		}
 	}
 	c20Concurrent(run)
+	c20Overlap(run)
 }
 
 // c20Concurrent: Reopen calls overlap registrations and removals (Reopen walks the pipelines without the Broker's
@@ -272,5 +273,99 @@ func c20Concurrent(run *rt.Run) {
 			}
 		}
 		run.Eval(fmt.Sprintf("conc|%d|%d", np, steps/8))
+	}
+}
+
+// c20Overlap: several Broker.Reopen calls run at the same time on a registry that does not change (3..8 event
+// types, one pipeline each). "Reopen reaches every node of every registered pipeline" holds for each call by
+// itself: a node's Reopen is attributed to the call on whose goroutine it runs (Broker.Reopen walks the pipelines
+// in its caller's goroutine), and every call that returned nil must have reached every node. A Reopen observed on
+// a goroutine that is none of the callers would make the attribution meaningless: the case is then inconclusive.
+func c20Overlap(run *rt.Run) {
+	r := run.Rand()
+	n := run.N(150, 6000)
+	ctx := context.Background()
+	for i := 0; i < n && !run.Stop(); i++ {
+		cr := r.Fork()
+		b, _ := eventlogger.NewBroker()
+		log := &Log{}
+		ntypes := cr.Range(3, 8)
+		var nodes []*RecNode
+		var reached sync.Map // gid -> *sync.Map (node object -> count within the current call)
+		var foreign int32
+		for k := 0; k < ntypes; k++ {
+			var ids []eventlogger.NodeID
+			for j, ty := range []eventlogger.NodeType{eventlogger.NodeTypeFormatter, eventlogger.NodeTypeSink} {
+				id := fmt.Sprintf("n%d-%d", k, j)
+				nd := NewRecNode(log, id, ty, 1, fixedBeh(Pass))
+				nd.OnReopen = func(x *RecNode) {
+					if m, ok := reached.Load(rt.GID()); ok {
+						m.(*sync.Map).Store(x.Obj, true)
+					} else {
+						atomic.AddInt32(&foreign, 1)
+					}
+					runtime.Gosched()
+				}
+				b.RegisterNode(eventlogger.NodeID(id), nd)
+				nodes = append(nodes, nd)
+				ids = append(ids, eventlogger.NodeID(id))
+			}
+			if err := b.RegisterPipeline(eventlogger.Pipeline{PipelineID: eventlogger.PipelineID(fmt.Sprintf("p%d", k)), EventType: eventlogger.EventType(fmt.Sprintf("t%d", k)), NodeIDs: ids}); err != nil {
+				panic(err)
+			}
+		}
+		ncallers, ncalls := cr.Range(2, 5), cr.Range(2, 6)
+		run.Progress("C20 overlapping Reopen %d types=%d callers=%d calls=%d", i, ntypes, ncallers, ncalls)
+		type miss struct {
+			caller, call int
+			missed       []string
+			err          error
+		}
+		var mu sync.Mutex
+		var misses []miss
+		var arrived int32
+		var wg sync.WaitGroup
+		for c := 0; c < ncallers; c++ {
+			wg.Add(1)
+			go func(c int) {
+				defer wg.Done()
+				g := rt.GID()
+				atomic.AddInt32(&arrived, 1)
+				for atomic.LoadInt32(&arrived) < int32(ncallers) {
+					runtime.Gosched()
+				}
+				for k := 0; k < ncalls; k++ {
+					mine := &sync.Map{}
+					reached.Store(g, mine)
+					err := b.Reopen(ctx)
+					var missed []string
+					for _, nd := range nodes {
+						if _, ok := mine.Load(nd.Obj); !ok {
+							missed = append(missed, string(nd.ID))
+						}
+					}
+					if err != nil || len(missed) > 0 {
+						mu.Lock()
+						misses = append(misses, miss{c, k, missed, err})
+						mu.Unlock()
+					}
+				}
+			}(c)
+		}
+		wg.Wait()
+		wit := map[string]any{"event_types": ntypes, "nodes": len(nodes), "concurrent_callers": ncallers, "calls_per_caller": ncalls}
+		switch {
+		case atomic.LoadInt32(&foreign) > 0:
+			run.Inconclusive("a node's Reopen ran on a goroutine that is none of the callers of Broker.Reopen: calls cannot be told apart")
+		case len(misses) > 0:
+			m := misses[0]
+			if m.err != nil {
+				run.Violation("history-pattern:reopen-error", fmt.Sprintf("one of %d overlapping Broker.Reopen calls returned an error although no node failed: %v", ncallers, m.err), wit)
+			} else {
+				run.Violation("history-pattern:reopen-missed-overlapping", fmt.Sprintf("call %d of caller %d, one of %d Broker.Reopen calls running at the same time, returned nil but did not reach %d of %d nodes (%v); %d calls in all missed nodes", m.call, m.caller, ncallers, len(m.missed), len(nodes), m.missed, len(misses)), wit)
+			}
+		}
+		run.Add("overlapping_reopen_calls", ncallers*ncalls)
+		run.Eval(fmt.Sprintf("overlap|%d|%d|%d", ntypes, ncallers, ncalls))
 	}
 }
